@@ -14,7 +14,8 @@ class Contract:
                  may_raise=(), modifies=(), returns=None, field_shapes=None, canary=None, cover=None,
                  inline=(), spec_module=None, assumed=False, float_as_real=False, note="", ghost_effect=None,
                  known=None, havoc_on_raise=False, loops=None, uses=None, body_contracts=None, trusted=(),
-                 frame_check=True, cuts=None, env=None, raises_unchanged=()):
+                 frame_check=True, cuts=None, env=None, raises_unchanged=(), engine_setup=None, native_setup=None,
+                 ghost_init=None):
         self.qual = qual
         self.short = qual.split(":")[1]
         self.props = list(props)
@@ -44,6 +45,9 @@ class Contract:
         self.cuts = cuts or {}
         self.env = env or {}
         self.raises_unchanged = list(raises_unchanged)
+        self.engine_setup = engine_setup
+        self.native_setup = native_setup
+        self.ghost_init = ghost_init
 
 
 def contract(qual, **kw) -> Contract:
